@@ -224,6 +224,11 @@ def _tt_eval(e, env):
     t = u(e)
     if t in env:
         return env[t]
+    a = atoms(e, True)
+    if len(a) == 1:
+        (ct, pol), = a
+        if ct in env:
+            return env[ct] if pol else not env[ct]
     raise _Unknown(t)
 
 
@@ -313,3 +318,55 @@ def id_truthiness_tests(fnode, id_attrs=ID_ATTRS):
             seen.add(id(node))
             uniq.append((node, txt))
     return uniq
+
+
+def tt_eval(expr, env):
+    """Value of a boolean expression under a valuation of its atoms (keys: canonical atom texts of sa.norm.atoms).
+    Raises ValueError naming the atom that is not in the valuation."""
+    try:
+        return _tt_eval(expr, env)
+    except _Unknown as e:
+        raise ValueError(str(e))
+
+
+def path_decision_table(cfg, atom_texts):
+    """{valuation: set of returned booleans} of a function that decides a boolean from the given atoms, computed from
+    the path summaries of its CFG (sa.pathfx): shape-independent (if/elif chains, guard clauses, one boolean
+    expression, temporaries).  Atom texts are given AFTER substitution of locals by their defining expressions.
+    Raises ValueError when a path tests something outside the atoms or returns a non-boolean expression."""
+    import itertools
+    from sa import pathfx
+
+    table = {}
+    sums = pathfx.summaries(cfg)
+    if not sums:
+        raise ValueError("no feasible path")
+    idx = {t: i for i, t in enumerate(atom_texts)}
+    for ps in sums:
+        conds = []
+        for t, pol in ps.atoms:
+            if t.startswith("<iter>"):
+                continue
+            if t in idx:
+                conds.append((None, t, pol))
+            else:
+                # a compound atom (e.g. the negation of a conjunction): evaluated under each valuation
+                try:
+                    conds.append((ast.parse(t, mode="eval").body, t, pol))
+                except SyntaxError:
+                    raise ValueError("a path tests `%s`" % t)
+        rets = ps.returns()
+        if len(rets) != 1 or rets[0][1] is None:
+            raise ValueError("a path does not end in `return <value>`")
+        rexpr = rets[0][1]
+        for vals in itertools.product((False, True), repeat=len(atom_texts)):
+            env = dict(zip(atom_texts, vals))
+            consistent = True
+            for e_, t, pol in conds:
+                v = env[t] if e_ is None else tt_eval(e_, env)
+                if v != pol:
+                    consistent = False
+                    break
+            if consistent:
+                table.setdefault(vals, set()).add(tt_eval(rexpr, env))
+    return table
